@@ -112,6 +112,11 @@ func init() {
 			out = append(out, Instance{Scenario: "c10_cb", Params: mustJSON(CBParams{Initial: 2, Event: "join-race", Perms: 1}), Bound: 0, Shards: 4, Note: "a monitor round of an existing member injected at every scheduling point of the newcomer's registration"})
 			out = append(out, Instance{Scenario: "c10_sd", Params: mustJSON(struct{}{}), Bound: 0, Shards: 4})
 			out = append(out, Instance{Scenario: "c10_simple", Params: mustJSON(struct{}{}), Bound: 0})
+			rb := 1
+			if tier == "thorough" {
+				rb = 2
+			}
+			out = append(out, Instance{Scenario: "c10_register", Params: mustJSON(struct{}{}), Bound: rb, Shards: 16, Note: "the same under every schedule within the bound during and after the disturbance"})
 			out = append(out, Instance{Scenario: "c10_register", Params: mustJSON(struct{}{}), Bound: 0, Note: "real RPC client / handler code over an in-memory transport: registration, death, restart under the same name before / after the leader's next round"})
 			out = append(out, Instance{Scenario: "c10_first", Params: mustJSON(FirstParams{Inject: true}), Bound: 0, Note: "first numbering injected at every scheduling point of the first GetInfo()"})
 			out = append(out, Instance{Scenario: "c10_first", Params: mustJSON(FirstParams{Two: true}), Bound: 0, Note: "two numberings announced before the first GetInfo(): the latest one is returned"})
